@@ -45,6 +45,14 @@ def in_tree(root, f):
     return any(n is f.a for n in ast.walk(root.a))
 
 
+def _within(f, top):
+    while f is not None:
+        if f is top:
+            return True
+        f = f.parent
+    return False
+
+
 def run_case(FST, src, on, back, k, action, send):
     root = FST(src, 'exec')
     n0 = sum(1 for _ in ast.walk(root.a))
@@ -54,6 +62,7 @@ def run_case(FST, src, on, back, k, action, send):
     step = 0
     acted = None
     acted_node = None
+    acted_cur = None
     new_desc = None
     to_send = None
     problems = []
@@ -75,7 +84,7 @@ def run_case(FST, src, on, back, k, action, send):
                                 f'({"dead" if f.a is None else f.a.__class__.__name__})')
                 break
             if not leaving:
-                if any(f is e for e in entered) and not (acted_leaving and send is True and f is acted_node):
+                if any(f is e for e in entered) and not (acted_leaving and send is True and _within(f, acted_cur)):
                     problems.append(f'step {step}: node {f.a.__class__.__name__} entered twice')
                     break
                 entered.append(f)
@@ -102,6 +111,7 @@ def run_case(FST, src, on, back, k, action, send):
                 acted = (action, step)
                 acted_leaving = leaving
                 acted_node = target
+                acted_cur = f   # send(True) on LEAVING a node walks that node's children again (documented)
                 if action == 'replace_cur_big' and target.a is not None:
                     new_desc = [n for n in ast.walk(target.a) if n is not target.a]
                 if send is not None:
